@@ -29,9 +29,9 @@ TCall ==
   /\ LET key == <<Ev.fmt, NormCall(Ev.call, Ev.hdr), Ev.arg, Ev.hdr>> IN
      /\ (key \in DOMAIN memo) => memo[key] = Ev.digest   \* purity / path agreement / auto = native
      /\ memo' = [k \in DOMAIN memo \cup {key} |-> IF k = key THEN Ev.digest ELSE memo[k]]
-  /\ (Ev.arg = "nope") => Ev.digest = "error"
+  /\ (Ev.arg \in UnknownSheets) => Ev.digest = "error"
   /\ ("res" \in DOMAIN Ev /\ (Ev.call # "worksheets_entry" \/ Ev.hdr = "default"))
-        => HeaderOK(Ev.res, doc, HKind(Ev), HNum(Ev))
+        => HeaderOK(Ev.res, IF Ev.arg = "s1" THEN LowerDoc ELSE doc, HKind(Ev), HNum(Ev))
   /\ UNCHANGED <<doc, hdr>>
 
 Next == TWorkbook \/ TOpen \/ TSet \/ TCall
